@@ -2868,7 +2868,7 @@ class Entity(MutableMapping[str, str]):
         orig_name = self['targetname']
         if orig_name:
             # If this name is already unique, preserve it.
-            if self.map.by_target[orig_name] == {self}:
+            if self.map.by_target[orig_name.casefold()] == {self}:
                 return self
 
             self['targetname'] = ''  # Remove ourselves from the .by_target[] set.
@@ -2877,12 +2877,12 @@ class Entity(MutableMapping[str, str]):
 
         base_name = orig_name.rstrip('0123456789')
 
-        if self.map.by_target[base_name]:
+        if self.map.by_target[base_name.casefold()]:
             # Check every index in order.
             i = 1
             while True:
                 name = base_name + str(i)
-                if not self.map.by_target[name]:
+                if not self.map.by_target[name.casefold()]:
                     self['targetname'] = name
                     break
                 i += 1
@@ -2985,7 +2985,7 @@ class Entity(MutableMapping[str, str]):
 
         # Update the by_class/target dicts with our new value
         if key_fold == 'classname':
-            _remove_copyset(self.map.by_class, orig_val or '', self)
+            _remove_copyset(self.map.by_class, (orig_val or '').casefold(), self)
             if self in self.map.entities:
                 self.map.by_class[str_val.casefold()].add(self)
             elif self is self.map.spawn:
@@ -2994,9 +2994,9 @@ class Entity(MutableMapping[str, str]):
                     raise ValueError('The worldspawn entity must remain worldspawn!')
                 self.map.by_class['worldspawn'].add(self)
         elif key_fold == 'targetname':
-            _remove_copyset(self.map.by_target, orig_val, self)
-            if self in self.map.entities:
-                self.map.by_target[str_val].add(self)
+            _remove_copyset(self.map.by_target, (orig_val or '').casefold() or None, self)
+            if self in self.map.entities or self is self.map.spawn:
+                self.map.by_target[str_val.casefold() or None].add(self)
         elif key_fold == 'nodeid':
             try:
                 node_id = int(orig_val)  # type: ignore  # Using as a cast
@@ -3022,12 +3022,13 @@ class Entity(MutableMapping[str, str]):
                 del self[k]
             return
         key = key.casefold()
-        if key == 'targetname':
-            _remove_copyset(self.map.by_target, self._keys.get('targetname', None), self)
-            self.map.by_target[None].add(self)
-
         if key == 'classname':
             raise KeyError('Classnames cannot be deleted!')
+
+        if key == 'targetname':
+            _remove_copyset(self.map.by_target, self['targetname'].casefold() or None, self)
+            if self in self.map.entities or self is self.map.spawn:
+                self.map.by_target[None].add(self)
 
         for k in self._keys:
             if k.casefold() == key:
@@ -3077,8 +3078,10 @@ class Entity(MutableMapping[str, str]):
         key = key.casefold()
         for k in self._keys:
             if k.casefold() == key:
-                # TODO: B909 bug?
-                return self._keys.pop(k)
+                value = self._keys[k]
+                # Delete through __delitem__ so by_class/by_target and node IDs stay in sync.
+                del self[k]
+                return value
         return default
 
     def clear(self) -> None:
@@ -3086,10 +3089,11 @@ class Entity(MutableMapping[str, str]):
 
         The since classnames cannot be removed, it will be reset to ``info_null``.
         """
-        # Delete these so the .by_class/name values are cleared.
+        # Set/delete through the normal methods so the .by_class/name values are updated.
         self['classname'] = 'info_null'
-        del self['targetname']
-        self._keys.clear()
+        for key in list(self._keys):
+            if key.casefold() != 'classname':
+                del self[key]
         # Clear $fixup as well.
         self._fixup = None
     clear_keys = clear
